@@ -343,8 +343,92 @@ def _free(t):
     return out
 
 
+JSON_OUTSIDE_STRINGS = "0123456789-+.eE{}[]:, \t\r\ntruefalsn"   # every character a JSON document can hold outside a string
+
+
+def json_alphabet(ctx):
+    """parse_command tokenizes the whole command text first and rejects it if any token is the <INVALID> word, also
+    for STORE whose payload is then parsed from the raw text: every character JSON allows outside a string must
+    therefore survive the tokenizer. Decided on the character dispatch of `tokenize` composed with `parse_word`."""
+    r = Result("B-6", "command tokenizer: no character that a JSON payload may contain outside a string literal (digits, "
+                      "- + . e E, brackets, braces, colon, comma, whitespace, the letters of true / false / null) is turned "
+                      "into the <INVALID> token that makes parse_command reject the whole STORE")
+    r.functions = ["tokenizer::tokenize", "tokenizer::parse_word"]
+    r.bounds = ("first character of a token; char::is_alphanumeric modelled exactly for ASCII; String::is_empty answers true "
+                "iff no push happened; peek() in parse_word returns the character the dispatch saw (peek does not consume)")
+    out = [r]
+    q = ctx.q
+    Et, err = ctx.load("parser-tokenizer-tokenize.", ghosts={})
+    pushes = lambda ev, E: bool(re.search(r"String::push$", ev.func))
+    Ew, err2 = ctx.load("parser-tokenizer-parse_word.", ghosts={}, counters={"pushed": pushes})
+    if Et is None or Ew is None:
+        r.status = "inconclusive"
+        r.notes.append(err or err2)
+        return out
+    calls = [e for e in oblig.events(Et, r"parse_word") if e.layer == 0]
+    inval = [e for e in oblig.events(Ew, r"ToString>?::to_string$") if e.args and "<INVALID>" in sym.describe(e.args[0])]
+    alnum = [e for e in oblig.events(Ew, r"is_alphanumeric$") if e.layer == 0]
+    empt = oblig.events(Ew, r"String::is_empty$")
+    if not (oblig.need_anchor(r, calls, "parse_word call in tokenize") and oblig.need_anchor(r, inval, "<INVALID> token in parse_word")
+            and oblig.need_anchor(r, alnum, "char::is_alphanumeric in parse_word") and oblig.need_anchor(r, empt, "word.is_empty()")):
+        return out
+    ct = Et.var_term(calls[0].env, "c")
+    cw = alnum[0].args[0] if alnum[0].args else None
+    cw = Ew.to_term(cw, "char") if cw is not None else None
+    if ct is None or cw is None:
+        r.status = "inconclusive"
+        r.notes.append("the peeked character is not resolved to a term")
+        return out
+    r.nontrivial = True
+    an = Ew.sym(alnum[0].dest_label, "bool")
+    is_an = z3.Or(z3.And(z3.UGE(cw, 48), z3.ULE(cw, 57)), z3.And(z3.UGE(cw, 65), z3.ULE(cw, 90)), z3.And(z3.UGE(cw, 97), z3.ULE(cw, 122)))
+    peeks = [e for e in oblig.events(Ew, r"Peekable::<.*>::peek$|Peekable::peek$") if e.layer == 0]
+    if not oblig.need_anchor(r, peeks, "chars.peek() in parse_word"):
+        return out
+    # the dispatch in `tokenize` peeked this character, so the first peek in parse_word sees it too
+    model = [an == is_an, z3.ULT(cw, 128), z3.BitVec(f"disc({peeks[0].site})", 64) == 1]
+    for e in empt:
+        n = e.env.get("#pushed")
+        b = Ew.sym(e.dest_label, "bool")
+        if n is None or b is None:
+            r.status = "inconclusive"
+            r.notes.append("String::is_empty not resolved")
+            return out
+        model.append(b == (n == 0))
+    bad = []
+    for ch in sorted(set(JSON_OUTSIDE_STRINGS)):
+        v = z3.BitVecVal(ord(ch), 32)
+        res, _ = q.check(calls[0].reach, ct == v, domain=Et.domain)
+        r.queries += 1
+        if res != z3.sat:
+            continue                      # this character is handled by another arm (number, symbol, bracket, whitespace)
+        for e in inval:
+            res, _m = q.check(e.reach, cw == v, *model, domain=Ew.domain)
+            r.queries += 1
+            if res == z3.sat:
+                bad.append(ch)
+                break
+    if bad:
+        from .c17 import native_binary, run_native
+        binary = native_binary(ctx.log)
+        shown = []
+        for ch in bad:
+            text = 'STORE t FOR c PAYLOAD {"f": 1e%s30}' % ch if ch in "+-" else 'STORE t FOR c PAYLOAD {"f": 1%s0}' % ch
+            rc, line = run_native(binary, ["parse", text]) if binary else (None, "native replay program did not build")
+            shown.append(f"{text} -> {line}")
+        confirmed = any("Err(" in x for x in shown)
+        r.witness = {"what": "characters legal in a JSON number are tokenized as <INVALID>: " + ", ".join(repr(c) for c in bad)
+                             + "; " + "; ".join(shown),
+                     "span": "src/command/parser/tokenizer.rs", "call": "parse_word", "path": [], "model": {"chars": bad}, "native": shown}
+        r.status = "violated" if confirmed else "inconclusive"
+        if not confirmed:
+            r.notes.append("the tokenizer marks the character invalid but the real parser accepted the command: " + "; ".join(shown))
+    return out
+
+
 def obligations(ctx):
     out = []
+    out += json_alphabet(ctx)
     out += type_summary(ctx)
     out += validate(ctx)
     out += store_gate(ctx)
